@@ -615,6 +615,18 @@ var c14Catalogue = []c14ColSpec{
 	{mk: func() proto.Column {
 		return proto.NewLowCardinality[proto.Nullable[string]](proto.NewColNullable[string](new(proto.ColStr)))
 	}},
+	// Nullable over a column that needs Prepare (ColNullable forwards it since fix 620e790); the value kept under a
+	// null row has to be one of the names as well
+	{mk: func() proto.Column {
+		e := new(proto.ColEnum)
+		_ = e.Infer("Enum8('a' = 1, 'b' = 2)")
+		return proto.NewColNullable[string](e)
+	}, strPool: []string{"a", "b"}},
+	{mk: func() proto.Column {
+		e := new(proto.ColEnum)
+		_ = e.Infer("Enum16('x' = 1000, 'y' = -5, 'z' = 7)")
+		return proto.NewArray[proto.Nullable[string]](proto.NewColNullable[string](e))
+	}, strPool: []string{"x", "y", "z"}},
 	{mk: func() proto.Column { return new(proto.ColPoint) }},
 	{mk: func() proto.Column { return new(proto.ColBytes) }},
 	{mk: func() proto.Column { return new(proto.ColJSONStr) }},
